@@ -569,3 +569,77 @@ pub fn wide_dag(rng: &mut Rng, w: usize, plain: usize, log_every: usize) -> Dag 
     join(&mut d, ps);
     d
 }
+
+// ---------------------------------------------------------------------------------- anc-merge family
+
+/// Like `gk::gen_dag`, plus merge commands whose two parents are COMPARABLE (parent/child,
+/// a farther ancestor, one side itself a merge) — what a peer can deliver although no honest
+/// client creates it (`add_merge` does not check).  `equal`: also merges whose two parents are the
+/// same command.  Additive: the shared generator is untouched.
+pub fn gen_dag_anc(rng: &mut Rng, p: &DagParams, anc_pct: u64, equal: bool) -> (Dag, usize) {
+    let n = rng.range(3, p.max_nodes.max(3) as u64) as usize;
+    let mut d = Dag::default();
+    let mut made = 0usize;
+    d.nodes.push(Node { parents: vec![], prio: Priority::Init, body: vec![Op::Set(0, 0), Op::Append] });
+    let dup = |d: &Dag, a: usize, b: usize| d.nodes.iter().any(|n| n.parents.len() == 2 && ((n.parents[0] == a && n.parents[1] == b) || (n.parents[0] == b && n.parents[1] == a)));
+    while d.nodes.len() < n || made == 0 {
+        if d.nodes.len() > n + 40 {
+            break;
+        }
+        let tips = d.tips();
+        let k = d.nodes.len();
+        if k >= 2 && rng.chance(anc_pct, 100) {
+            let b = rng.range(1, k as u64 - 1) as usize;
+            let anc = d.ancestors(b);
+            let cands: Vec<usize> = (0..k).filter(|&i| anc[i]).collect();
+            let kind = rng.below(if equal { 5 } else { 4 });
+            let a = match kind {
+                // the direct parent(s)
+                0 => Some(*rng.pick(&d.nodes[b].parents)),
+                // any proper ancestor
+                1 => Some(*rng.pick(&cands)),
+                // an ancestor that is itself a merge, if any
+                2 => {
+                    let ms: Vec<usize> = cands.iter().copied().filter(|&i| d.nodes[i].parents.len() == 2).collect();
+                    if ms.is_empty() { None } else { Some(*rng.pick(&ms)) }
+                }
+                // the descendant side is a merge
+                3 => if d.nodes[b].parents.len() == 2 { Some(*rng.pick(&cands)) } else { None },
+                _ => Some(b),
+            };
+            if let Some(a) = a {
+                if !dup(&d, a, b) {
+                    d.nodes.push(Node { parents: vec![a, b], prio: Priority::Merge, body: vec![] });
+                    made += 1;
+                    continue;
+                }
+            }
+        }
+        if tips.len() >= 2 && rng.chance(p.merge_pct, 100) {
+            let a = *rng.pick(&tips);
+            let mut b = *rng.pick(&tips);
+            if a == b {
+                b = tips[(tips.iter().position(|&x| x == a).unwrap() + 1) % tips.len()];
+            }
+            if !dup(&d, a, b) {
+                d.nodes.push(Node { parents: vec![a, b], prio: Priority::Merge, body: vec![] });
+                continue;
+            }
+        }
+        let parent = if rng.chance(p.branch_pct, 100) { rng.below(k as u64) as usize } else { *rng.pick(&tips) };
+        let mut prio = Priority::Basic(rng.below(p.prios as u64) as u32);
+        if rng.chance(p.finalize_pct, 100) {
+            let anc = d.ancestors(parent);
+            let ok = d.nodes.iter().enumerate().all(|(i, nd)| nd.prio != Priority::Finalize || anc[i] || i == parent);
+            if ok || p.allow_parallel_finalize {
+                prio = Priority::Finalize;
+            }
+        }
+        let mut body = gen_body(rng, p);
+        if !body.contains(&Op::Append) {
+            body.push(Op::Append);
+        }
+        d.nodes.push(Node { parents: vec![parent], prio, body });
+    }
+    (d, made)
+}
